@@ -431,6 +431,7 @@ func main() {
 		if k == 0 {
 			tags = append(tags, "unperturbed")
 		}
+		dedupKeys(cfg)
 		h.check(caseT{Config: cfg, Tags: tags}, len(cfg.Types) >= 3)
 	}
 	m := run.N(45, 2500)
